@@ -65,7 +65,6 @@ structure State where
   head : Header                    -- ClientState.Header
   chainId : Nat
   trusting : Nat                   -- ClientState.TrustingPeriod
-  revCheck : Bool                  -- does the tree under test compare the header's revision with its parent's (fixes/C10-header-revision.diff)
   deriving Repr, DecidableEq
 
 def two64 : Nat := 18446744073709551616
@@ -139,7 +138,7 @@ def verifyHeader (env : Env) (s : State) (now : Nat) (h : Header) : Verdict :=
   | none => .err "no-parent"
   | some p =>
     if env.hash p ≠ h.parentHash then .err "parent-hash"
-    else if s.revCheck && h.rev ≠ p.rev then .err "revision"
+    else if h.rev ≠ p.rev then .err "revision"
     else if h.time > now + 15 then .err "future"
     else if h.time ≤ p.time then .err "time"
     else match verifyEip1559 p h with
@@ -315,12 +314,25 @@ def updateClient (v : Variant) (env : Env) (now : Nat) (s : State) (h : Header) 
           .ok { s3 with head := h, cons := aset s3.cons h.number { time := h.time, root := h.root } }
 
 /-- `CreateClient`: Initialize + consensus state at the initial height -/
-def initStateR (env : Env) (chainId trusting : Nat) (revCheck : Bool) (h0 : Header) : State :=
+def initState (env : Env) (chainId trusting : Nat) (h0 : Header) : State :=
   { hdr := [(hkey env h0, h0)], rootMain := [((h0.root, h0.number), hkey env h0)],
-    cons := [(h0.number, { time := h0.time, root := h0.root })], head := h0, chainId := chainId, trusting := trusting, revCheck := revCheck }
+    cons := [(h0.number, { time := h0.time, root := h0.root })], head := h0, chainId := chainId, trusting := trusting }
 
-/-- creation on a tree with the revision check -/
-def initState (env : Env) (chainId trusting : Nat) (h0 : Header) : State := initStateR env chainId trusting true h0
+
+/-! ### stateless stage, creation, wire encoding of big integers -/
+
+/-- `big.Int.SetBytes`: big-endian bytes to a number; the EMPTY byte string is 0 (a base fee / difficulty of 0 is
+    encoded as no bytes at all: "absent" and "zero" are the same value), leading zero bytes do not matter -/
+def beNat (b : Bytes) : Nat := b.foldl (fun acc x => acc * 256 + x.toNat) 0
+
+/-- `MsgUpdateClient.ValidateBasic` (header.ValidateBasic) ; msg server → `ClientKeeper.UpdateClient` -/
+def msgUpdate (v : Variant) (env : Env) (now : Nat) (s : State) (h : Header) : Outcome State :=
+  if !validateBasic h then .err "msg-basic" else updateClient v env now s h
+
+/-- creation through a proposal: `ClientState.Validate` (= creation header's ValidateBasic) ; `CreateClient` -/
+def createClient (env : Env) (chainId trusting : Nat) (h0 : Header) : Outcome State :=
+  if h0.rev = 0 ∧ h0.number = 0 then .err "create-height-zero"      -- Height.IsZero()
+  else if !validateBasic h0 then .err "create-basic" else .ok (initState env chainId trusting h0)
 
 /-! ### several clients in one chain, restart, discarded executions -/
 
@@ -338,7 +350,7 @@ def World.update (v : Variant) (env : Env) (now : Nat) (w : World) (i : Bool) (h
   match w.get i with
   | none => .err "no-client"
   | some s =>
-    match updateClient v env now s h with
+    match msgUpdate v env now s h with
     | .ok s' => .ok (w.set i s')
     | .err e => .err e
     | .panic p => .panic p
